@@ -35,3 +35,23 @@ pub(crate) struct AppState {
     pub(crate) mongodb_client: Client,
     pub(crate) currently_running: Mutex<HashSet<RunningInfo>>,
 }
+
+/// Sleeps for the time given by the environment variable `VERIF_TASK_DELAY_MS`
+/// (either `N` or `A-B` for a pseudo-random value between A and B milliseconds).
+#[cfg(feature = "verif_hooks")]
+pub(crate) fn verif_task_delay() {
+    use std::sync::atomic::{AtomicU64, Ordering};
+    static COUNTER: AtomicU64 = AtomicU64::new(0);
+    if let Ok(spec) = std::env::var("VERIF_TASK_DELAY_MS") {
+        let mut parts = spec.splitn(2, '-');
+        let lo: u64 = parts.next().and_then(|v| v.parse().ok()).unwrap_or(0);
+        let hi: u64 = parts.next().and_then(|v| v.parse().ok()).unwrap_or(lo);
+        let n = COUNTER.fetch_add(1, Ordering::Relaxed);
+        let mix = n
+            .wrapping_mul(0x9E37_79B9_7F4A_7C15)
+            .rotate_left(23)
+            .wrapping_mul(0xBF58_476D_1CE4_E5B9);
+        let ms = if hi > lo { lo + mix % (hi - lo + 1) } else { lo };
+        std::thread::sleep(Duration::from_millis(ms));
+    }
+}
